@@ -54,7 +54,10 @@ def newStreamReader (inp : ByteArray) (pos : Nat) : NS :=
 
 /-- `ReaderConfig{DictCap, SingleStream}.NewReader` -/
 def newReader (cfgCap : Nat) (single : Bool) (inp : ByteArray) : Except RStat X :=
-  let cap := if cfgCap = 0 then 8 * 1024 * 1024 else cfgCap
+  -- `ReaderConfig.Verify` checks the capacity through a temporary lzma.Reader2Config (0 is accepted as "default") but
+  -- does NOT store a default: with DictCap 0 the dictionary of a block is just the size its header declares
+  if cfgCap ≠ 0 ∧ (cfgCap < 4096 ∨ cfgCap > 2 ^ 32 - 1) then .error (oerr "dictionary capacity is out of range") else
+  let cap := cfgCap
   match newStreamReader inp 0 with
   | .fail .eof => .error (.err .unexpectedEOF)
   | .fail st => .error st
